@@ -47,6 +47,15 @@ fn rand_bytes(rng: &mut Rng, n: usize) -> Vec<u8> {
 }
 
 fn rand_len(rng: &mut Rng, per_chunk: usize) -> usize {
+    if rng.below(40) == 0 {
+        // a request of 2^63 bytes or more: refused with a panic, whatever the element size
+        return match rng.below(4) {
+            0 => usize::MAX,
+            1 => usize::MAX - rng.usize_below(70),
+            2 => (usize::MAX / 2 + 1) + rng.usize_below(9),
+            _ => (usize::MAX / (64 / per_chunk).max(1)).saturating_add(1 + rng.usize_below(3)),
+        };
+    }
     match rng.below(8) {
         0 => 0,
         1 => 1,
@@ -87,7 +96,9 @@ fn gen_ops(rng: &mut Rng, size: usize, n_ops: usize) -> Vec<String> {
             0 | 1 => {
                 let len = rand_len(rng, per_chunk);
                 ops.push(format!("z:{len:x}"));
-                lens.push(len);
+                if len < (1 << 40) {
+                    lens.push(len);
+                }
             },
             2..=5 => {
                 let k = slot(rng, &lens);
